@@ -1,5 +1,5 @@
 """SSR code-bias (1059, 1065) and GLONASS code-phase bias (1230) list rules (C16)."""
-from terms import FA, show, mk, ty_of, is_const, const_val, T, subterms
+from terms import err_variant, FA, show, mk, ty_of, is_const, const_val, T, subterms
 from facts import callee_of
 from intervals import Intervals
 from algebra import fact_of_guard, canon_le, lin
@@ -63,7 +63,9 @@ def rule_count_fields(prog, res):
             for i, s in enumerate(f.blocks[b]["stmts"]):
                 if s["k"] == "assign" and s["place"]["local"] == 0 and s["rv"]["k"] == "aggregate" and s["rv"].get("vname") == "Err":
                     v = fa.rv_term(s["rv"], (b, i))
-                    errs.add(v.args[3][0].args[2])
+                    _ev = err_variant(v)
+                    if _ev is not None:
+                        errs.add(_ev)
         res.ob("Q-mask", "%s | entries that cannot be represented are refused with OutOfRange" % num, errs == {"OutOfRange"}, str(sorted(errs)), f.loc)
         # second loop: RangeInclusive(0, maxid) ascending, group written iff its bit is set
         okl = False
@@ -667,7 +669,9 @@ def rule_1230(prog, res):
         for i, s in enumerate(fe.blocks[b]["stmts"]):
             if s["k"] == "assign" and s["place"]["local"] == 0 and s["rv"]["k"] == "aggregate" and s["rv"].get("vname") == "Err":
                 v = ea.rv_term(s["rv"], (b, i))
-                errs.add(v.args[3][0].args[2])
+                _ev = err_variant(v)
+                if _ev is not None:
+                    errs.add(_ev)
     res.ob("Q-1230", "1230 | an entry with any other signal is refused with InvalidSignalId", errs == {"InvalidSignalId"}, str(sorted(errs)), fe.loc)
 
 
